@@ -22,7 +22,6 @@ from __future__ import annotations
 import ast
 from http import HTTPStatus
 from pathlib import Path
-from typing import Any
 
 from vlib.core import TranslationBroken
 
